@@ -951,6 +951,10 @@ func (c *Ctx) Select(arr, idx *Term, elem Sort) *Term {
 			arr = arr.Args[0]
 			continue
 		}
+		if baseOffsetDistinct(i, idx) {
+			arr = arr.Args[0]
+			continue
+		}
 		break
 	}
 	if arr.Op == OConstArr {
@@ -1099,3 +1103,21 @@ func (c *Ctx) UF(name string, res Sort, args ...*Term) *Term {
 
 // SignExt sign-extends the low w bits of v.
 func SignExt(v uint64, w int) int64 { return signExt(v, w) }
+
+// baseOffsetDistinct: a = base + k1 and b = base + k2 (same base term, no wrap) with k1 != k2.
+func baseOffsetDistinct(a, b *Term) bool {
+	ba, ka, oka := baseOffset(a)
+	bb, kb, okb := baseOffset(b)
+	return oka && okb && ba == bb && ka != kb
+}
+
+func baseOffset(t *Term) (*Term, int64, bool) {
+	if t.Op == OAdd && t.Args[1].IsConst() {
+		lo, hi := binInterval(OAdd, t.Sort, t.Args[0], t.Args[1])
+		if lo == nil || hi == nil {
+			return nil, 0, false
+		}
+		return t.Args[0], t.Args[1].Int64(), true
+	}
+	return t, 0, true
+}
